@@ -154,3 +154,31 @@ def check(ctx, run):
         if not ok:
             run.fail(Finding("C18.R2", B.F + fname, "no non-negativity guard on time_to_maturity / volatility is reached", "negative time to maturity or volatility is not rejected",
                              file=str(prog.modules[fi.module].path), line=fi.node.lineno))
+    ww_width_rule(ctx, run)
+
+
+def ww_width_rule(ctx, run):
+    """R3 (hedger): the Whalley-Wilmott half-width is a real, finite number for every gamma the four option types produce -
+    positive, zero and NEGATIVE (European binaries have negative gamma above the strike) - positive spot, cost >= 0 and a > 0."""
+    from .. import entrypoints as E
+    from .. import world as W
+    prog, interp = ctx.prog, ctx.interp
+    fi = E.functional(ctx, "ww_width")
+    run.functions.add(fi.qualname)
+    res = [r for r in interp.explore(fi, [], dict(gamma=W.tensor("gamma"), spot=W.tensor("spot"), cost=W.fl("cost"), a=W.fl("a"))) if not r["raises"]]
+    if len(res) != 1:
+        raise AnalysisError("ww_width: expected one path")
+    term = res[0]["value"]
+    gP, gN = sp.Symbol("gamma", positive=True), sp.Symbol("gamma", negative=True)
+    base = {"spot": fin(1, sp.Symbol("spot", positive=True)), "a": fin(1, sp.Symbol("a", positive=True))}
+    for glabel, g in (("gamma>0", fin(1, gP)), ("gamma<0", fin(-1, gN)), ("gamma=0", zero())):
+        for clabel, c in (("cost>0", fin(1, sp.Symbol("cost", positive=True))), ("cost=0", zero())):
+            try:
+                val = ExtReal(dict(base, gamma=g, cost=c)).ev(term)
+            except (NotImplementedError, KeyError) as ex:
+                raise AnalysisError(f"ww_width: extended-real domain cannot model {ex}")
+            ok = val.kind in ("fin", "zero") and (val.kind == "zero" or val.sign in (1, 0) or (clabel == "cost=0" or glabel == "gamma=0"))
+            run.oblige("C18.R3", f"ww_width @ {glabel},{clabel}", ok, str(val))
+            if not ok:
+                run.fail(Finding("C18.R3", fi.qualname, f"case {glabel},{clabel}: {val}", "the no-transaction band half-width is not a finite non-negative number, so the Whalley-Wilmott hedge is NaN on such paths",
+                                 file=str(prog.modules[fi.module].path), line=fi.node.lineno, case=f"{glabel},{clabel}"))
